@@ -237,7 +237,12 @@ func (g *gen) random(r *emit.Rand, n int, kind string) {
 		if r.Chance(30) {
 			lim = int64(4 + r.Intn(20))
 		}
+		capBindNext = lim != bigLimit && i%2 == 1
 		w := newWorld(g.cfg, backend, lim, g.dir, keys)
+		capBindNext = false
+		if w.capBind {
+			g.meta.Count("memory_budget_is_the_limit", "yes")
+		}
 		length := 6 + r.Intn(30)
 		if thorough() && r.Chance(20) {
 			length = 40 + r.Intn(40)
